@@ -48,12 +48,13 @@ ASSUMPTIONS = [
     "jax.random.split(key, num_batches+1) (mirrored by the seam; any other key reaches the seam as NaN probes and is reported)",
     "numeric values are alphabet values (eigenvalues in [0.2, 5], gaps >= 0.1 or exactly degenerate; responses with "
     "singular values >= 0.4); structure (probes, orders, splits, options) is exhaustive",
-    "probes whose spectral weights fall in (1e-26, 1e-9) have an ill-conditioned Krylov dimension and are skipped (counted)",
+    "probes whose spectral weights fall in (1e-26, 1e-7) have an ill-conditioned Krylov dimension and are skipped (counted)",
     "ELBO premise: samples represent Q = N(pos, metric^-1) (antithetic sigma points with second moment exactly D); "
     "no relevant eigenvalue in (1, 1+1e-2) other than exact ones (early-stop window); simple non-unit spectrum (ARPACK)",
     "zero padding after a Lanczos breakdown is only demanded as decoupling (|beta| <= 1e-8): in floating point the "
     "breakdown residual can exceed the absolute threshold 1e-12 and one harmless extra node appears",
-    "compared at 1e-9 (tridiagonal, quadrature) / 1e-8 (ELBO) relative to the natural scale of the quantity",
+    "compared at 1e-9 (tridiagonal: times max(1, 1e-3/smallest spectral weight); quadrature) / 1e-8 (ELBO) relative to "
+    "the natural scale of the quantity",
 ]
 
 TOL_T = 1e-9
@@ -89,7 +90,12 @@ def cases(tier, seed):
             for ro, mf, ra, nd_ in cfgs:
                 if order > n and nd_ > 0 and quick:
                     continue
-                out.append(dict(part="quad", n=n, order=order, reorth=ro, matform=mf, radau=ra, ndefl=nd_, seed=seed))
+                out.append(dict(part="quad", n=n, order=order, reorth=ro, matform=mf, radau=ra, ndefl=nd_, seed=seed,
+                                check="main"))
+        for ro, nd_ in itertools.product(("none", "full"), sorted({1, n - 1})):
+            # probes lying entirely inside the deflated eigenspace must contribute nothing (own cases, own finding)
+            out.append(dict(part="quad", n=n, order=n, reorth=ro, matform="dense", radau=False, ndefl=nd_, seed=seed,
+                            check="deflated"))
     for n in dims:
         for order in sorted({1, max(1, n - 1), n, n + 1}):
             for pset in ("signs", "basis"):
@@ -292,7 +298,9 @@ def run_tri(case):
             k = min(order, kr)
             err = max(np.abs(al[:k] - a[:k]).max(initial=0.), np.abs(off[:k - 1] - b[:k - 1]).max(initial=0.))
             worst = max(worst, err / scale)
-            if err > TOL_T * scale:
+            # the Jacobi matrix is an ill-conditioned function of the measure when a weight is tiny
+            tolT = TOL_T * max(1., 1e-3 / float(ms.w.min()))
+            if err > tolT * scale:
                 return bad("Lanczos tridiagonal differs from the Jacobi matrix of the spectral measure by %.3g (%s)"
                            % (err, where), finding_key="lanczos|%s|tridiagonal-mismatch|%s" % (
                                api, "after-breakdown" if order > kr else "regular"),
@@ -335,7 +343,7 @@ def run_tri(case):
                 e1 = np.abs(Vk @ Vk.T - np.eye(k)).max(initial=0.)
                 e2 = np.abs(Vk[0] - z).max()
                 e3 = np.abs(Vk @ A @ Vk.T - Tk).max(initial=0.)
-                if max(e1, e2, e3 / scale) > TOL_T:
+                if max(e1, e2, e3 / scale) > tolT:
                     return bad("lanczos_tridiag basis: orthonormality %.3g, first vector %.3g, V A V^T - T %.3g (%s)"
                                % (e1, e2, e3, where), finding_key="lanczos|public|basis",
                                detail=dict(V=V.tolist(), T=T.tolist(), A=A.tolist()))
@@ -357,6 +365,7 @@ def run_quad(case):
     from nifty.re.num import lanczos as lz
     n, order, seed = case["n"], case["order"], case["seed"]
     reorth, matform, radau, ndefl = case["reorth"], case["matform"], case["radau"], case["ndefl"]
+    only_deflated = case.get("check") == "deflated"
     alpha = _alphabet(n, seed)
     labels = [l for l, _ in alpha["probes"]]
     Z = np.array([z for _, z in alpha["probes"]])
@@ -398,9 +407,15 @@ def run_quad(case):
                            finding_key="slq|single-probe-se-not-nan")
             if ms.kr == 0:
                 st["fully_deflated"] += 1
-                if not (abs(est[pi]) <= 1e-9 and abs(inv[pi]) <= 1e-9):
-                    return bad("probe inside the deflated space contributes %.3g / %.3g instead of 0 (%s)"
-                               % (est[pi], inv[pi], where), finding_key="slq|deflated-probe-nonzero", detail=det)
+                if only_deflated:
+                    for nm, v in (("log", est[pi]), ("extra-fn", inv[pi])):
+                        if not abs(v) <= 1e-9:
+                            return bad("probe lying inside the deflated eigenspace contributes %.6g to the %s trace "
+                                       "instead of 0 (%s)" % (v, nm, where),
+                                       finding_key="slq|deflated-probe-nonzero|%s" % nm,
+                                       detail=dict(det, Q=Q.tolist(), value=float(v)))
+                continue
+            if only_deflated:
                 continue
             exact, exact_inv = ms.quad(np.log), ms.quad(_inv_c)
             sc = ms.norm2 * max(1., float(np.abs(np.log(ms.nodes)).max()))
@@ -445,6 +460,8 @@ def run_quad(case):
                                % (rlo[pi], rhi[pi], exact, where), finding_key="slq|radau|after-breakdown-inexact",
                                detail=det)
     rel = "<" if order < n else ("=" if order == n else ">")
+    if only_deflated:
+        return ok(nontrivial=st["fully_deflated"] > 0, outcome="quad|deflated-probes|%s" % reorth, stats=st)
     return ok(nontrivial=st["exact_decided"] + st["gauss_rule_decided"] > 0,
               outcome="quad|%s|%s|radau=%d|defl=%s|order%sn" % (reorth, matform, radau, "0" if not ndefl else
                                                               ("1" if ndefl == 1 else "n-1"), rel),
@@ -786,6 +803,7 @@ def _group(case):
 
 # ======================================================================================
 def run(case):
+    os.environ.setdefault("TF_CPP_MIN_LOG_LEVEL", "3")     # XLA "slow compile" alarms on an oversubscribed machine
     try:
         return dict(tri=run_tri, quad=run_quad, est=run_est, elbo=run_elbo)[case["part"]](case)
     finally:
